@@ -631,8 +631,8 @@ def run_property(pid, mod, tier, seed, update_bounds=False, only=None):
                        'inputs': r['cex_inputs'], 'failed_assertions': r['failed'], 'native_output': r['replay']['output'],
                        'lemma': o.lemma, 'how': './check %s --replay %s' % (pid, os.path.relpath(rp, VERIF))}, open(rp, 'w'), indent=1)
             log('VIOLATION property=%s replay=%s' % (pid, rp))
-            log('   lemma: %s\n   failed: %s\n   native replay against the real code:\n     %s' % (
-                o.lemma, '; '.join(r['failed']), r['replay']['output'].replace('\n', '\n     ')))
+            log('   lemma: %s\n   inputs: %s\n   native replay against the g++-built real code: %s' % (
+                o.lemma, r['cex_inputs'], '; '.join(l for l in r['replay']['output'].split('\n') if 'FAIL' in l or l.startswith('O '))))
             exit_code = 1
         elif r['verdict'] == 'ENCODING-MISMATCH':
             exit_code = max(exit_code, 2) if exit_code != 1 else 1
